@@ -106,14 +106,14 @@ func (e *Executor) readerSweep(i int, s *model.Step, point string) *Violation {
 
 // parkedReaders are reader goroutines stopped between GetFastNode and the latest-version check.
 type parkedReaders struct {
-	e     *Executor
-	i     int
-	op    string
-	wg    sync.WaitGroup
-	gate  chan struct{}
-	mu    sync.Mutex
-	viols []*Violation
-	n     int
+	e                *Executor
+	i                int
+	op               string
+	wg               sync.WaitGroup
+	gate             chan struct{}
+	mu               sync.Mutex
+	viols            []*Violation
+	n                int
 	atHook, finished int32
 }
 
